@@ -61,6 +61,31 @@ Definition ends_with_mapper (k : pystr) : option pystr :=
 Definition dget (d : dict) (k : pystr) : pyval :=
   match dict_get d (PStr k) with Some v => v | None => PNone end.
 
+(* the integer literals of convert_dict (see below); the values in the pinned source are std_cd_params *)
+Record cd_params := { cd_start_default : Z; cd_slice_offset : Z; cd_bump_default : Z; cd_bump_inc : Z }.
+Definition std_cd_params : cd_params :=
+  {| cd_start_default := 1; cd_slice_offset := 1; cd_bump_default := 0; cd_bump_inc := 1 |}.
+(* what the version arithmetic of the statement needs: the slice starts at version-1, each step adds 1 *)
+Definition cd_params_ok (p : cd_params) : bool := Z.eqb (cd_slice_offset p) 1 && Z.eqb (cd_bump_inc p) 1.
+
+(* shape of Versioned.__init__ as recognised on the source *)
+Inductive init_shape := InitForce (off : Z) | InitSetDefault (off : Z) | InitUnrecognised.
+Definition init_shape_ok (s : init_shape) : bool :=
+  match s with InitForce off => Z.eqb off 1 | _ => false end.
+
+(* float + small int, exact (None when the sum would need rounding): a float reified as m * 2^e, m odd or 0 *)
+Fixpoint pos_tz (q : positive) : Z := match q with xO r => 1 + pos_tz r | _ => 0 end.
+Definition flt_norm (m e : Z) : option (Z * Z) :=
+  match m with
+  | Z0 => Some (0, 0)
+  | Zpos q => let t := pos_tz q in
+              if Z.abs (m / 2 ^ t) <? 2 ^ 53 then Some (m / 2 ^ t, e + t) else None
+  | Zneg q => let t := pos_tz q in
+              if Z.abs (m / 2 ^ t) <? 2 ^ 53 then Some (m / 2 ^ t, e + t) else None
+  end.
+Definition flt_add_int (m e k : Z) : option (Z * Z) :=
+  if e <? 0 then flt_norm (m + k * 2 ^ (- e)) e else flt_norm (m * 2 ^ e + k) 0.
+
 Section WithFunctions.
   (* the user's FunctionCall functions: pure, may raise *)
   Variable fn : N -> list pyval -> res pyval.
@@ -140,14 +165,28 @@ Section WithFunctions.
   Definition version_key : pyval := PStr (s2p "version").
 
   Definition py_slice_from {A} (l : list A) (i : Z) : list A :=
-    if 0 <=? i then skipn (Z.to_nat i) l
+    if 0 <=? i then (if Z.of_nat (length l) <=? i then [] else skipn (Z.to_nat i) l)   (* no unary blow-up *)
     else skipn (Z.to_nat (Z.max 0 (Z.of_nat (length l) + i))) l.
+
+  (* The four integer literals of convert_dict, re-read from the source on every run
+     (Gen/VersionedShape.v):
+        start_version = the_dict.get("version", START_DEFAULT)
+        for mapping in versions_mapping[(start_version - SLICE_OFFSET):]:
+            ...
+            mapped_dict["version"] = mapped_dict.get("version", BUMP_DEFAULT) + BUMP_INC        *)
+  Variable p : cd_params.
 
   Definition bump_version (d : dict) : res dict :=
     match dict_get d version_key with
-    | None => Ok (dict_set d version_key (PNum (NInt 1)))
-    | Some (PNum (NInt z)) => Ok (dict_set d version_key (PNum (NInt (z + 1))))
-    | Some (PBool b) => Ok (dict_set d version_key (PNum (NInt ((if b then 1 else 0) + 1))))
+    | None => Ok (dict_set d version_key (PNum (NInt (cd_bump_default p + cd_bump_inc p))))
+    | Some (PNum (NInt z)) => Ok (dict_set d version_key (PNum (NInt (z + cd_bump_inc p))))
+    | Some (PBool b) => Ok (dict_set d version_key (PNum (NInt ((if b then 1 else 0) + cd_bump_inc p))))
+    | Some (PNum (NFlt m e)) =>                (* a mapping put a float under "version": float + int *)
+        match flt_add_int m e (cd_bump_inc p) with
+        | Some (m', e') => Ok (dict_set d version_key (PNum (NFlt m' e')))
+        | None => Raise Unmodelled
+        end
+    | Some (PNum (NDec _ _)) => Raise Unmodelled
     | Some _ => Raise TypeError
     end.
 
@@ -156,9 +195,9 @@ Section WithFunctions.
 
   Definition start_index (d : dict) : res Z :=
     match dict_get d version_key with
-    | None => Ok 0
-    | Some (PNum (NInt z)) => Ok (z - 1)
-    | Some (PBool b) => Ok ((if b then 1 else 0) - 1)
+    | None => Ok (cd_start_default p - cd_slice_offset p)
+    | Some (PNum (NInt z)) => Ok (z - cd_slice_offset p)
+    | Some (PBool b) => Ok ((if b then 1 else 0) - cd_slice_offset p)
     | Some _ => Raise TypeError
     end.
 
@@ -169,6 +208,20 @@ Section WithFunctions.
   (* Versioned.__init__: the constructor overrides whatever version was passed *)
   Definition versioned_init_kwargs (maps : list mapping) (kw : dict) : dict :=
     dict_set kw version_key (PNum (NInt (Z.of_nat (length maps) + 1))).
+
+  (* ... as the source spells it now (Gen/VersionedShape.v): kwargs["version"] = len(mapping) + off
+     stored unconditionally before Structure.__init__ runs (InitForce), or only when the caller did
+     not pass one (InitSetDefault), or something the recogniser does not know *)
+  Definition versioned_init_kwargs_s (s : init_shape) (maps : list mapping) (kw : dict) : dict :=
+    match s with
+    | InitForce off => dict_set kw version_key (PNum (NInt (Z.of_nat (length maps) + off)))
+    | InitSetDefault off =>
+        match dict_get kw version_key with
+        | Some _ => kw
+        | None => dict_set kw version_key (PNum (NInt (Z.of_nat (length maps) + off)))
+        end
+    | InitUnrecognised => kw
+    end.
 
   (* deserialize_structure_internal on a Versioned class: convert first, then the ordinary path *)
   Definition deser_versioned {T} (deser : dict -> res T) (maps : list mapping) (d : dict) : res T :=
@@ -185,5 +238,7 @@ Definition std_fn (fid : N) (args : list pyval) : res pyval :=
            | _ => Ok PNone
            end
   | 3%N => Ok (PNum (NInt (Z.of_nat (length args))))            (* lambda *a: len(a) *)
-  | _ => Raise ValueError                                       (* a function that always raises *)
+  | 4%N => Raise ValueError                                     (* a function that always raises *)
+  | _ => if (100 <=? fid)%N then Ok (hd PNone args)             (* tracer 100+i: identity (logs i on the side) *)
+         else Raise ValueError
   end.
